@@ -197,6 +197,9 @@ func (g *Gen) actorsAct() {
 	if g.faults["multimsg"] && g.chance(0.15) {
 		g.multiMsgAct()
 	}
+	if g.chance(g.prof.Burst) {
+		g.burstAct()
+	}
 	// providers watch for requests every block
 	g.providersAct()
 }
@@ -873,5 +876,49 @@ func (g *Gen) moduleAct() {
 	g.submit(Op{K: "mod", Mod: m}, 0)
 	if m.Paused {
 		g.submit(Op{K: "mod", Mod: &ModOp{Label: g.label("m"), T: "start", Ctx: ctxRefOf("mod-"+m.Label, 0), Consumer: m.Consumer}}, 1+g.pick(3))
+	}
+}
+
+// burstAct: several contexts of one consumer with a tight budget become due at the same height, so that the order
+// in which the end-blocker serves them decides who is paid for and who is paused (C06, C20).
+func (g *Gen) burstAct() {
+	svcs := g.definedSvcs()
+	if len(svcs) == 0 {
+		return
+	}
+	consumer := g.poor
+	if g.chance(0.4) {
+		consumer = g.consumers[0]
+	}
+	n := 2 + g.pick(3)
+	var total int64
+	sent := 0
+	for i := 0; i < n; i++ {
+		svc := pickStr(g, svcs)
+		binds := g.bindingsOf(svc)
+		if len(binds) == 0 {
+			continue
+		}
+		b := binds[g.pick(len(binds))]
+		var price int64 = 1
+		if hp, err := ParseHPricing(b.Pricing); err == nil && hp.Base.IsInt64() && hp.Base.Int64() > 1 {
+			price = hp.Base.Int64()
+		}
+		total += price
+		m := MsgOp{T: "call", Svc: svc, Providers: []string{refOfAddr(g, b.Provider)}, Input: goodInput, FeeCap: fmt.Sprintf("%dstake", price*2), Timeout: int64(1 + g.pick(int(minI64(g.x.cur.Params.MaxRequestTimeout, 3))))}
+		if g.chance(0.5) {
+			m.Repeated, m.Total, m.Freq = true, int64(2+g.pick(2)), uint64(m.Timeout)
+		}
+		g.submit(g.tx(consumer, m), 0)
+		sent++
+	}
+	if sent >= 2 {
+		g.x.stats.inc("targeted_same_height_burst")
+		// give the consumer enough for some of them, not all
+		bal := g.x.cur.BalOf(acctAddr(consumer))
+		want := total/2 + int64(g.pick(int(total/2)+1))
+		if bal < want && g.chance(0.7) {
+			g.submit(g.tx(g.stranger, MsgOp{T: "send", To: acctRef(consumer), Amount: want - bal}), 0)
+		}
 	}
 }
